@@ -49,6 +49,9 @@ pub struct CertReloader {
     cert_info: Arc<RwLock<Option<CertificateInfo>>>,
     reload_count: Arc<RwLock<u64>>,
     last_reload: Arc<RwLock<Option<Instant>>>,
+    /// Held for the whole of `reload()`: reloads triggered from different tasks
+    /// (file watcher, SIGHUP handler) must not overlap.
+    reload_lock: std::sync::Mutex<()>,
 }
 
 impl CertReloader {
@@ -89,6 +92,7 @@ impl CertReloader {
             cert_info: Arc::new(RwLock::new(cert_info)),
             reload_count: Arc::new(RwLock::new(0)),
             last_reload: Arc::new(RwLock::new(None)),
+            reload_lock: std::sync::Mutex::new(()),
         })
     }
 
@@ -119,6 +123,12 @@ impl CertReloader {
 
     /// Reload certificate manually
     pub fn reload(&self) -> Result<()> {
+        // One reload at a time: a reload that read the files earlier must not
+        // finish after, and overwrite, one that read newer files.
+        let _reload_guard = self
+            .reload_lock
+            .lock()
+            .unwrap_or_else(|poisoned| poisoned.into_inner());
         let start = Instant::now();
         info!("[CertReloader] Reloading certificate...");
 
